@@ -18,6 +18,24 @@ CLAIMED = {
         technique="TLA+ spec + TLC complete state graph, transition-by-transition replay into the code, TLC trace validation of recorded histories",
         design_ref="DESIGN.md §5.1, §6 C13"),
 }
+CLAIMED['C01'] = dict(
+    text="Design: TLC model-checks specs/Carver.tla (two-stage 'test candidates in descending exact measure, first viable wins' search; exact "
+         "rational/BigNat measures for Cramer's V, Tschuprow's T, Kruskal-Wallis; ties explored as nondeterminism; viability verdict anywhere "
+         "between the Strict and Loose reading) over every table in small bounds with invariants Inv_C01_opt / Inv_C01_drop. Binding (code->spec): "
+         "real BinaryCarver/ContinuousCarver fits on an enumerated small-table domain (each table as quantitative, ordinal and categorical column) and on "
+         "seeded random frames; per feature the observed base table, history rows, fitted grouping are judged by TLC with specs/CarverTrace.tla, which "
+         "re-enumerates all candidate groupings and recomputes optimality exactly.",
+    note="Trusted: TLC, the projection in harness/acverif/drivers/carve.py (base buckets observed from the carver's own internal Discretizer), exact-vs-float "
+         "agreement inside the n<=64 envelope (DESIGN 4.2). Beyond the enumerated tables the evidence is sampled.",
+    technique="TLA+ design model checked by TLC + TLC trace validation of real carver fits (exact-arithmetic oracle in TLA+)",
+    design_ref="DESIGN.md §5.5, §6 C01")
+CLAIMED['C02'] = dict(
+    text="Design: Inv_C02 (group count and frequency bounds of every fitted state) on all Carver.tla model-checking runs. Binding: the same real fits as C01; "
+         "rows of transform(X_train)/transform(X_dev) are logged as (label, y, input-was-missing) and TLC (CarverTrace.tla) recounts label counts, frequencies, "
+         "missing-value handling, dev label set and train/dev mean-y order from the rows alone.",
+    note="Trusted: TLC, the row projection of drivers/carve.py. Dev-rank clause uses the Loose reading (no strict inversion).",
+    technique="TLA+ design model checked by TLC + TLC trace validation of transform outputs of real fits",
+    design_ref="DESIGN.md §5.5, §6 C02")
 NOT_YET = "check not built yet in this round (planned, see DESIGN.md §9); no claim is made"
 
 checks, na = [], []
